@@ -186,6 +186,7 @@ func checkC06(c *Ctx) {
 	}
 	// the periodic check function: called from the loop functions under claim==false, contains Get
 	nChk := 0
+	var chkFn *ssa.Function
 	for _, f := range sortedFns(loopFns) {
 		eachInstr(f, func(in ssa.Instruction) {
 			call, ok := in.(*ssa.Call)
@@ -206,6 +207,7 @@ func checkC06(c *Ctx) {
 				return
 			}
 			nChk++
+			chkFn = g
 			c.check(m.claimLit(m.GuardsAt(in), false), "R2", fmt.Sprintf("periodic check #%d only for a non-leader in %s", nChk, shortFn(f)), in, "guards %s", fmtLits(m.GuardsAt(in)))
 			if nChk > 1 {
 				return
@@ -262,6 +264,117 @@ func checkC06(c *Ctx) {
 				}
 			})
 		})
+	}
+	// the time between two existence checks: on every path from one check to the next at most one
+	// pacing wait elapses (the timer case of a select on time.After, or a tick of the loop's
+	// ticker). A retry pause followed by a freshly created ticker's first tick is two periods.
+	if chkFn != nil {
+		unit := m.unitFns(root)
+		// a check: a call of the check function, or of a loop-free helper every path through
+		// which calls it (or finds the instance leading)
+		wraps := map[*ssa.Function]bool{}
+		var mustCheck func(f *ssa.Function, depth int) bool
+		mustCheck = func(f *ssa.Function, depth int) bool {
+			if f == chkFn {
+				return true
+			}
+			if v, ok := wraps[f]; ok {
+				return v
+			}
+			wraps[f] = false
+			if depth > 3 || f.Blocks == nil || !m.isLib(f) || len(cfgLoops(f)) > 0 || !m.staticReach(f, false)[chkFn] {
+				return false
+			}
+			ok := true
+			seen := map[*ssa.BasicBlock]bool{}
+			var walk func(b *ssa.BasicBlock)
+			walk = func(b *ssa.BasicBlock) {
+				if seen[b] || !ok {
+					return
+				}
+				seen[b] = true
+				for _, in := range b.Instrs {
+					if call, isCall := in.(*ssa.Call); isCall {
+						if g := call.Call.StaticCallee(); g != nil && mustCheck(g, depth+1) {
+							return
+						}
+					}
+					if _, isRet := in.(*ssa.Return); isRet {
+						ok = false
+						return
+					}
+				}
+				for i, sx := range b.Succs {
+					if deadEdge(b, i) {
+						continue
+					}
+					if l, has := m.edgeLit(b, i); has && l.Truth && (m.isClaimLoadSym(l.S) || m.isClaimValueSym(l.S)) {
+						continue
+					}
+					walk(sx)
+				}
+			}
+			walk(f.Blocks[0])
+			wraps[f] = ok
+			return ok
+		}
+		isCheck := func(in ssa.Instruction) bool {
+			call, ok := in.(*ssa.Call)
+			if !ok {
+				return false
+			}
+			g := call.Call.StaticCallee()
+			return g != nil && mustCheck(g, 0)
+		}
+		m.descend = func(f *ssa.Function) bool { return containsFn(unit, f) && !mustCheck(f, 0) }
+		m.edgeHook = func(l Lit, flag int) (int, bool) {
+			if l.Truth && (m.isClaimLoadSym(l.S) || m.isClaimValueSym(l.S)) {
+				return flag, true // a leader does not look for a vacancy
+			}
+			if sel, k, ok := selectCaseOf(l); ok && k < len(sel.States) {
+				ch := m.Sym.Of(sel.States[k].Chan).String()
+				if strings.Contains(ch, "time.After(") || (strings.Contains(ch, "time.NewTicker(") && strings.HasSuffix(ch, ".C")) || strings.Contains(ch, "time.NewTimer(") {
+					return flag + 1, false
+				}
+				if strings.HasSuffix(m.Sym.Of(sel.States[k].Chan).Name, "Context.Done") {
+					return flag, true // the election is over
+				}
+			}
+			return flag, false
+		}
+		nFrom := 0
+		for _, uf := range unit {
+			eachInstr(uf, func(in ssa.Instruction) {
+				if !isCheck(in) {
+					return
+				}
+				nFrom++
+				var late ssa.Instruction
+				first := true
+				m.exploreFrom(in, 0, func(x ssa.Instruction, flag int) (int, bool) {
+					if first {
+						first = false
+						return flag, false
+					}
+					if isCheck(x) {
+						return flag, true
+					}
+					if flag >= 2 {
+						if late == nil {
+							late = x
+						}
+						return flag, true
+					}
+					return flag, false
+				}, nil)
+				c.check(late == nil, "R2", fmt.Sprintf("next existence check within one period of check #%d in %s", nFrom, shortFn(uf)), in,
+					"a path from this check passes two pacing waits (a time.After pause and/or ticker ticks) before the next check (reached %s): a vacancy that no watch event announces is then noticed only after two periods", c.posOf(late))
+			})
+		}
+		m.descend, m.edgeHook = nil, nil
+		if nFrom < 2 {
+			c.undecided("R2", "existence checks of the follower loop", firstInstr(root), "only %d call sites of %s in the follower loop's functions; at least 2 on the reference tree", nFrom, shortFn(chkFn))
+		}
 	}
 	if nChk == 0 {
 		c.viol("R2", "periodic check exists", firstInstr(root), "the follower loop never calls a function that reads the key and can start an acquisition round")
